@@ -145,6 +145,9 @@ def run_case(case):
     if case.get("order_seed") is not None:
         random.Random(case["order_seed"]).shuffle(order)
     orc = Oracle(ni)
+    # the diagram the attractors are read from: weak invariant (stubs without successors, successors strictly inside,
+    # every minimal trap space inside an expanded node covered by a successor) - verified judge `judgeWeak`
+    orc.ask(("weak", 0), "WEAK " + common.dump_sd(sd, ni))
     for j, (spx, _, _) in enumerate(min_checks):
         orc.ask(("minset", j), f"MIN {spx}")
     seeds, errors = {}, 0
@@ -185,6 +188,9 @@ def run_case(case):
     stubs = [i for i in sd.node_ids() if not sd.node_data(i)["expanded"]]
     orc.run()
     fails, seen = [], {}
+    if orc.get(("weak", 0)) != "OK":
+        fails.append({"kind": "invariant", "sig": {"what": orc.get(("weak", 0)).split(":")[0][:60]},
+                      "detail": "diagram completed with skip nodes: " + orc.get(("weak", 0))})
     for i, ss in seeds.items():
         obs = node_obs(sd, i)
         f, idx = judge_seeds_sound(orc, obs, ss)
